@@ -177,6 +177,30 @@ pub fn spec(id: &str) -> Option<Spec> {
             worker_timeout_s: |t| t.pick(1200, 4 * 3600),
             rayon_threads: 16,
         },
+        "C19" => Spec {
+            id: "C19",
+            level: "exploration",
+            rule: "Contracts: every contract of crates/cairo-lang-starknet/cairo_level_tests compiled by the real \
+                   pipeline (thorough: 4 optimization configurations), every stored *.contract_class.json, and seeded \
+                   generated contracts with varied entry-point sets and builtin use. Per class: static invariants \
+                   (published-felts class == direct class, entry offsets == function starts and on VM-decoder \
+                   instruction boundaries, builtin lists == signature builtins in protocol order, selectors increasing, \
+                   words < P, hint offsets on boundaries, segment lengths sum and split at function starts, hashes \
+                   stable over JSON, pythonic-hints and size-limit options) and a dynamic oracle: each entry point is \
+                   executed from the class bytecode in cairo-vm with builtin segments passed in the DECLARED order, 3 \
+                   calldata shapes; the run must complete, return every builtin pointer in its own segment, a valid \
+                   gas value, syscall pointer and PanicResult. Non-trivial = distinct (class, static pass) and \
+                   distinct (class, entry point, calldata shape) runs.",
+            floor: |t| t.pick(100, 600),
+            shards: |_| 1,
+            crash_is_violation: false,
+            assumptions: &[
+                "the dynamic oracle emulates the OS calling convention documented in casm_contract_class.rs (bytecode + ret + builtin cost pointer, segment arena as 3 cells); it is not the Starknet OS",
+                "syscalls are served by the runner's own emulation with an empty state",
+            ],
+            worker_timeout_s: |t| t.pick(1500, 4 * 3600),
+            rayon_threads: 16,
+        },
         _ => return None,
     })
 }
@@ -197,6 +221,7 @@ pub fn worker(id: &str, ctx: &mut Ctx) {
         "C14" | "C15" => crate::sierra_mut::sierra_worker(ctx, id),
         "C16" => crate::casm_ref::c16_worker(ctx),
         "C18" => crate::serde_checks::c18_worker(ctx),
+        "C19" => crate::classes::c19_worker(ctx),
         _ => panic!("no worker for {id}"),
     }
 }
@@ -210,6 +235,7 @@ pub fn replay(id: &str, case: &Value) -> Result<Option<String>, String> {
         "C14" | "C15" => crate::sierra_mut::sierra_replay(id, case),
         "C16" => crate::casm_ref::c16_replay(case),
         "C18" => crate::serde_checks::c18_replay(case),
+        "C19" => crate::classes::c19_replay(case),
         _ => Err(format!("no replay for {id}")),
     }
 }
